@@ -20,7 +20,8 @@ Record snap := mkSnap {
   s_intra_ok : bool;                   (* Txids[..].Intra is the insertion position *)
   s_aview : list ((N * N) * (option aparams * option holding));   (* non-empty GetAssetParams / GetAssetHolding over U x A *)
   s_creators : list (N * N);           (* (asset, creator) for every asset of A that GetCreator finds *)
-  s_txbytes : N                        (* eval.blockTxBytes: not computed by the model (encoded sizes), judged by the oracle only *)
+  s_txbytes : N;                       (* eval.blockTxBytes: not computed by the model (encoded sizes), judged by the oracle only *)
+  s_appobs : list (list N)             (* application rows, see [appobs_of] *)
 }.
 
 Fixpoint table_eqb (a b : table) : bool :=
@@ -65,12 +66,19 @@ Fixpoint aview_eqb (a b : list ((N * N) * (option aparams * option holding))) : 
   | _, _ => false
   end.
 
+Fixpoint rows_eqb (a b : list (list N)) : bool :=
+  match a, b with
+  | [], [] => true
+  | x :: r, y :: r' => nlist_eqb x y && rows_eqb r r'
+  | _, _ => false
+  end.
+
 Definition snap_eqb (a b : snap) : bool :=
   table_eqb (s_table a) (s_table b) && nlist_eqb (s_mods a) (s_mods b) &&
   plist_eqb (s_txids a) (s_txids b) && llist_eqb (s_leases a) (s_leases b) &&
   (s_txncount a =? s_txncount b) && (s_fees a =? s_fees b) && (s_payset a =? s_payset b) &&
   Bool.eqb (s_intra_ok a) (s_intra_ok b) && aview_eqb (s_aview a) (s_aview b) &&
-  plist_eqb (s_creators a) (s_creators b).
+  plist_eqb (s_creators a) (s_creators b) && rows_eqb (s_appobs a) (s_appobs b).
 
 (* insertion sort of the lease map by key (the harness sorts the Go map the same way) *)
 Definition lease_lt (a b : (N * N) * N) : bool :=
@@ -89,11 +97,40 @@ Definition aview_of (U A : list N) (c : cow) : list ((N * N) * (option aparams *
 Definition creators_of (A : list N) (c : cow) : list (N * N) :=
   flat_map (fun i => match get_creator c i with Some a => [(i, a)] | None => [] end) A.
 
-Definition snap_of (U A : list N) (ev : evalst) : snap :=
+(* application rows, in a fixed order, for the applications [APPS] (ascending) and box names 1..4:
+     [3; app; creator]                                   getCreator
+     [1; addr; app; gsu; gsb; lsu; lsb; pages; sponsor]  GetAppParams
+     [2; addr; app; su; sb]                              GetAppLocalState (its schema)
+     [4; addr; app; global; nu; nb]                      allocated + getStorageCounts
+     [5; app; name; size]                                GetBox *)
+Definition b2n (b : bool) : N := if b then 1 else 0.
+Definition appobs_of (U APPS : list N) (c : cow) : list (list N) :=
+  flat_map (fun i =>
+    (match get_app_creator c i with Some cr => [[3; i; cr]] | None => [] end) ++
+    flat_map (fun a =>
+      (match get_appparams c a i with
+       | Some p => [[1; a; i; fst (app_gs p); snd (app_gs p); fst (app_ls p); snd (app_ls p); app_pages p; app_sponsor p]]
+       | None => [] end) ++
+      (match get_applocal c a i with Some sch => [[2; a; i; fst sch; snd sch]] | None => [] end)) U ++
+    flat_map (fun a =>
+      flat_map (fun g => if allocated c a i g
+                         then let cn := layers_counts (c_top c :: c_parents c) (c_base c) a i g in [[4; a; i; b2n g; fst cn; snd cn]]
+                         else []) [true; false]) U ++
+    flat_map (fun name => match get_box c i name with Some sz => [[5; i; name; sz]] | None => [] end) [1; 2; 3; 4]) APPS.
+
+(* the account table: the fixed universe, then every application account that is not all-zero *)
+Definition table_of (U APPS : list N) (c : cow) : table :=
+  map (fun a => (a, lookup c a)) U ++
+  filter (fun e => negb (acct_is_zero (snd e))) (map (fun i => (app_addr i, lookup c (app_addr i))) APPS).
+
+Record ids := mkIds { id_U : list N; id_A : list N; id_APPS : list N }.
+
+Definition snap_of (I : ids) (ev : evalst) : snap :=
   let c := ev_cow ev in
-  mkSnap (map (fun a => (a, lookup c a)) U) (modified c) (l_txids (c_top c))
+  mkSnap (table_of (id_U I) (id_APPS I) c) (modified c) (l_txids (c_top c))
          (lease_sort (l_leases (c_top c))) (l_txncount (c_top c)) (l_fees (c_top c))
-         (N.of_nat (List.length (ev_payset ev))) true (aview_of U A c) (creators_of A c) 0.
+         (N.of_nat (List.length (ev_payset ev))) true (aview_of (id_U I ++ map app_addr (id_APPS I)) (id_A I) c) (creators_of (id_A I) c) 0
+         (appobs_of (id_U I) (id_APPS I) c).
 
 (* ------------------------------------------------------------------ decoding *)
 Definition opt_bind {A B} (o : option A) (f : A -> option B) : option B :=
@@ -128,16 +165,68 @@ Definition dec_table (t : term) : option table :=
 Definition dec_params (t : term) : option params :=
   l <-? as_N_list t ;;
   match l with
-  | [unit; minbal; minfee; unf; maxg; leases; pay; goon; coh; np; spc; mmb; ma; afp; afo; bf; bb; se; su; sb; lb; me; ca] =>
+  | [unit; minbal; minfee; unf; maxg; leases; pay; goon; coh; np; spc; mmb; ma; afp; afo; bf; bb; se; su; sb; lb; me; ca; mac; mao; mkl; mbs; ppg] =>
     if forallb w64 l then
       Some (mkParams unit minbal minfee (negb (unf =? 0)) maxg (negb (leases =? 0)) (negb (pay =? 0)) goon
-                     (negb (coh =? 0)) (negb (np =? 0)) (negb (spc =? 0)) mmb ma afp afo bf bb se su sb lb me (negb (ca =? 0)))
+                     (negb (coh =? 0)) (negb (np =? 0)) (negb (spc =? 0)) mmb ma afp afo bf bb se su sb lb me (negb (ca =? 0))
+                     mac mao mkl mbs (negb (ppg =? 0)))
+    else None
+  | _ => None
+  end.
+
+Definition dec_sbody (t : term) : option sbody :=
+  match t with
+  | TL (TS k :: args) =>
+    a <-? map_opt as_N args ;;
+    if negb (forallb w64 a) then None else
+    if String.eqb k "pay" then
+      match a with [rcv; amt; cl] => Some (SPay rcv amt cl) | _ => None end
+    else if String.eqb k "acfg" then
+      match a with [asset; tot; df; mg; rs; fz; cl; ex] => Some (SAcfg asset (mkAP tot (negb (df =? 0)) mg rs fz cl ex)) | _ => None end
+    else if String.eqb k "axfer" then
+      match a with [asset; amt; asnd; rcv; cl] => Some (SAxfer asset amt asnd rcv cl) | _ => None end
+    else if String.eqb k "afrz" then
+      match a with [asset; acct; fr] => Some (SAfrz asset acct (negb (fr =? 0))) | _ => None end
+    else None
+  | _ => None
+  end.
+
+Definition dec_inner (t : term) : option (N * sbody) :=
+  match t with
+  | TL [fee; b] => f <-? as_N fee ;; b' <-? dec_sbody b ;; if w64 f then Some (f, b') else None
+  | _ => None
+  end.
+
+Definition dec_appop (t : term) : option appop :=
+  match t with
+  | TL [TS k; TL g] => if String.eqb k "in" then (g' <-? map_opt dec_inner g ;; Some (OInner g')) else None
+  | TL (TS k :: args) =>
+    a <-? map_opt as_N args ;;
+    if negb (forallb w64 a) then None else
+    if String.eqb k "bc" then match a with [n; nl; sz] => Some (OBoxCreate n nl sz) | _ => None end
+    else if String.eqb k "bd" then match a with [n; nl] => Some (OBoxDel n nl) | _ => None end
+    else if String.eqb k "br" then match a with [n; nl; sz] => Some (OBoxResize n nl sz) | _ => None end
+    else if String.eqb k "gp" then match a with [key; ib] => Some (OGPut key (negb (ib =? 0))) | _ => None end
+    else if String.eqb k "gd" then match a with [key] => Some (OGDel key) | _ => None end
+    else if String.eqb k "lp" then match a with [acct; key; ib] => Some (OLPut acct key (negb (ib =? 0))) | _ => None end
+    else if String.eqb k "ld" then match a with [acct; key] => Some (OLDel acct key) | _ => None end
+    else if String.eqb k "fail" then match a with [] => Some OFail | _ => None end
     else None
   | _ => None
   end.
 
 Definition dec_body (t : term) : option body :=
   match t with
+  | TL [TS k; app; oc; gsu; gsb; lsu; lsb; pages; acc; TL ops] =>
+    if negb (String.eqb k "appl") then None else
+    l <-? map_opt as_N [app; oc; gsu; gsb; lsu; lsb; pages; acc] ;;
+    ops' <-? map_opt dec_appop ops ;;
+    if negb (forallb w64 l) then None else
+    match l with
+    | [app; oc; gsu; gsb; lsu; lsb; pages; acc] =>
+      Some (BApp (mkCall app oc (gsu, gsb) (lsu, lsb) pages ops' (negb (acc =? 0))))
+    | _ => None
+    end
   | TL (TS k :: args) =>
     a <-? map_opt as_N args ;;
     if negb (forallb w64 a) then None else
@@ -229,14 +318,16 @@ Definition dec_bassets (t : term) : option (list ((N * N) * (option aparams * op
   end.
 
 Definition dec_aview := dec_bassets.
+Definition dec_rows (t : term) : option (list (list N)) :=
+  match t with TL l => map_opt as_N_list l | _ => None end.
 
 Definition dec_snap (t : term) : option snap :=
   match t with
-  | TL [tb; mods; TL txids; leases; tc; fees; ps; av; crs; tbytes] =>
+  | TL [tb; mods; TL txids; leases; tc; fees; ps; av; crs; tbytes; arows] =>
     tb' <-? dec_table tb ;; mods' <-? as_N_list mods ;; tx' <-? dec_txids_from 0 txids ;;
     ls' <-? dec_leases leases ;; tc' <-? as_N tc ;; fees' <-? as_N fees ;; ps' <-? as_N ps ;;
-    av' <-? dec_aview av ;; crs' <-? dec_pairs crs ;; tbytes' <-? as_N tbytes ;;
-    Some (mkSnap tb' mods' (fst tx') ls' tc' fees' ps' (snd tx') av' crs' tbytes')
+    av' <-? dec_aview av ;; crs' <-? dec_pairs crs ;; tbytes' <-? as_N tbytes ;; arows' <-? dec_rows arows ;;
+    Some (mkSnap tb' mods' (fst tx') ls' tc' fees' ps' (snd tx') av' crs' tbytes' arows')
   | _ => None
   end.
 
@@ -250,9 +341,40 @@ Definition dec_group (t : term) : option gobs :=
   | _ => None
   end.
 
+(* rows of the ledger's application state: kinds 1, 2, 5 as in [appobs_of], and
+   [6; addr; app; global; key; isbytes] for every stored key *)
+Definition set_bapp (l : list ((N * N) * (option appparams * option (N * N)))) (k : N * N)
+           (f : option appparams * option (N * N) -> option appparams * option (N * N)) :=
+  pupsert k (f (match pfind k l with Some v => v | None => (None, None) end)) l.
+
+Fixpoint base_of_rows (rows : list (list N)) (b : base) : base :=
+  match rows with
+  | [] => b
+  | row :: r =>
+    let b1 :=
+      match row with
+      | [1; a; i; gsu; gsb; lsu; lsb; pages; sp] =>
+        mkBase (b_accts b) (b_txids b) (b_counter b) (b_assets b)
+               (set_bapp (b_apps b) (a, i) (fun v => (Some (mkApp (gsu, gsb) (lsu, lsb) pages sp), snd v))) (b_store b) (b_boxes b)
+      | [2; a; i; su; sb] =>
+        mkBase (b_accts b) (b_txids b) (b_counter b) (b_assets b)
+               (set_bapp (b_apps b) (a, i) (fun v => (fst v, Some (su, sb)))) (b_store b) (b_boxes b)
+      | [5; i; name; sz] =>
+        mkBase (b_accts b) (b_txids b) (b_counter b) (b_assets b) (b_apps b) (b_store b) (pupsert (i, name) sz (b_boxes b))
+      | [6; a; i; g; key; ib] =>
+        let k := skey a i (negb (g =? 0)) in
+        mkBase (b_accts b) (b_txids b) (b_counter b) (b_assets b) (b_apps b)
+               (pupsert k (aupsert key (negb (ib =? 0)) (match pfind k (b_store b) with Some kv => kv | None => [] end)) (b_store b))
+               (b_boxes b)
+      | _ => b
+      end in
+    base_of_rows r b1
+  end.
+
 Record blockcase := mkCase {
   k_P : params; k_rnd : N; k_prevlvl : N; k_lvl : N; k_ru : N; k_sink : N; k_pool : N; k_sps : N; k_counter : N;
   k_base : table; k_basetx : list N; k_bassets : list ((N * N) * (option aparams * option holding)); k_aids : list N;
+  k_brows : list (list N); k_appids : list N; k_nU : N; k_frows : list (list N);
   k_start : snap; k_groups : list gobs;
   k_expired : list N; k_absent : list N; k_proposer : N; k_payout : N; k_endcode : N; k_final : table;
   k_faview : list ((N * N) * (option aparams * option holding)); k_fcreators : list (N * N)
@@ -260,19 +382,20 @@ Record blockcase := mkCase {
 
 Definition dec_case (t : term) : option blockcase :=
   match t with
-  | TL [TS tag; ps; hd; bs; btx; bas; aids; st; TL gs; TL [ex; ab; prop; pay; ec; fin; fav; fcr]] =>
+  | TL [TS tag; ps; hd; bs; btx; bas; aids; brows; appids; st; TL gs; TL [ex; ab; prop; pay; ec; fin; fav; fcr; frows]] =>
     if negb (String.eqb tag "blk") then None else
     P <-? dec_params ps ;;
     h <-? as_N_list hd ;;
     b <-? dec_table bs ;; btx' <-? as_N_list btx ;; bas' <-? dec_bassets bas ;; aids' <-? as_N_list aids ;;
+    brows' <-? dec_rows brows ;; appids' <-? as_N_list appids ;; frows' <-? dec_rows frows ;;
     st' <-? dec_snap st ;;
     gs' <-? map_opt dec_group gs ;;
     ex' <-? as_N_list ex ;; ab' <-? as_N_list ab ;; prop' <-? as_N prop ;; pay' <-? as_N pay ;;
     ec' <-? as_N ec ;; fin' <-? dec_table fin ;; fav' <-? dec_aview fav ;; fcr' <-? dec_pairs fcr ;;
     match h with
-    | [rnd; prevlvl; lvl; ru; sink; pool; sps; ctr] =>
+    | [rnd; prevlvl; lvl; ru; sink; pool; sps; ctr; nU] =>
       if forallb w64 h && w64 pay' then
-        Some (mkCase P rnd prevlvl lvl ru sink pool sps ctr b btx' bas' aids' st' gs' ex' ab' prop' pay' ec' fin' fav' fcr')
+        Some (mkCase P rnd prevlvl lvl ru sink pool sps ctr b btx' bas' aids' brows' appids' nU frows' st' gs' ex' ab' prop' pay' ec' fin' fav' fcr')
       else None
     | _ => None
     end
@@ -283,17 +406,22 @@ Definition dec_case (t : term) : option blockcase :=
 Definition env_of (k : blockcase) (validate generate : bool) : env :=
   mkEnv (k_P k) (k_rnd k) (k_lvl k) (k_sink k) (k_pool k) (k_sps k) validate generate.
 
-Definition universe (k : blockcase) : list N := map fst (k_base k).
+(* the fixed universe = the first [k_nU] entries of the previous round's table (application
+   accounts follow) *)
+Definition universe (k : blockcase) : list N := firstn (N.to_nat (k_nU k)) (map fst (k_base k)).
+Definition ids_of (k : blockcase) : ids := mkIds (universe k) (k_aids k) (k_appids k).
+Definition base_of (k : blockcase) : base :=
+  base_of_rows (k_brows k) (mkBase (k_base k) (k_basetx k) (k_counter k) (k_bassets k) [] [] []).
 
 (* generate+validate evaluator fed with every group; returns "all observations agree" *)
-Fixpoint replay_groups (E : env) (U A : list N) (ev : evalst) (gs : list gobs) : bool * evalst :=
+Fixpoint replay_groups (E : env) (I : ids) (ev : evalst) (gs : list gobs) : bool * evalst :=
   match gs with
   | [] => (true, ev)
   | g :: r =>
     let '(ev1, res) := transaction_group E ev (g_txns g) (g_lsigfee g) in
     let code := match res with Ok _ => 0 | Err e => e end in
-    if (code =? g_code g) && snap_eqb (snap_of U A ev1) (g_snap g)
-    then replay_groups E U A ev1 r
+    if (code =? g_code g) && snap_eqb (snap_of I ev1) (g_snap g)
+    then replay_groups E I ev1 r
     else (false, ev1)
   end.
 
@@ -302,17 +430,18 @@ Definition accepted (gs : list gobs) : list (list txn * N) :=
 
 Definition model_agrees (k : blockcase) : bool :=
   let U := universe k in
-  let b := mkBase (k_base k) (k_basetx k) (k_counter k) (k_bassets k) in
+  let b := base_of k in
   match start_block (env_of k true true) b (k_prevlvl k) (k_ru k) with
   | Err _ => false
   | Ok ev0 =>
-    snap_eqb (snap_of U (k_aids k) ev0) (k_start k) &&
-    fst (replay_groups (env_of k true true) U (k_aids k) ev0 (k_groups k)) &&
+    snap_eqb (snap_of (ids_of k) ev0) (k_start k) &&
+    fst (replay_groups (env_of k true true) (ids_of k) ev0 (k_groups k)) &&
     (* the committed block: eval.Eval in validate mode over the accepted groups *)
     match eval_block (env_of k true false) b (k_prevlvl k) (k_ru k) (accepted (k_groups k))
                      (k_expired k) (k_absent k) (k_proposer k) (k_payout k) with
-    | Ok ev => table_eqb (map (fun a => (a, lookup (ev_cow ev) a)) U) (k_final k) && (k_endcode k =? 0) &&
-               aview_eqb (aview_of U (k_aids k) (ev_cow ev)) (k_faview k) &&
+    | Ok ev => table_eqb (table_of U (k_appids k) (ev_cow ev)) (k_final k) && (k_endcode k =? 0) &&
+               rows_eqb (filter (fun r => negb (match r with 4 :: _ => true | _ => false end)) (appobs_of U (k_appids k) (ev_cow ev))) (k_frows k) &&
+               aview_eqb (aview_of (U ++ map app_addr (k_appids k)) (k_aids k) (ev_cow ev)) (k_faview k) &&
                plist_eqb (creators_of (k_aids k) (ev_cow ev)) (k_fcreators k)
     | Err _ => negb (k_endcode k =? 0)
     end
@@ -360,6 +489,18 @@ Definition leases_ok (old new : list ((N * N) * N)) (g : list txn) : bool :=
   forallb (fun e => match pfind (fst e) new with Some _ => true | None => false end) old &&
   forallb (fun tx => (t_lease tx =? 0) || match pfind (t_sender tx, t_lease tx) new with Some _ => true | None => false end) g.
 
+(* inner transactions a group can have executed: all of them, except those of ClearState
+   programs, which may have been dropped with a failing program (bounds for the oracle) *)
+Definition op_inner (op : appop) : list (N * sbody) := match op with OInner g => g | _ => [] end.
+Definition call_inner (tx : txn) : list (N * sbody) :=
+  match t_body tx with BApp c => flat_map op_inner (ac_script c) | _ => [] end.
+Definition is_clear (tx : txn) : bool := match t_body tx with BApp c => ac_oc c =? 3 | _ => false end.
+Definition inner_count (sure : bool) (g : list txn) : N :=
+  fold_left (fun acc tx => if sure && is_clear tx then acc else acc + N.of_nat (List.length (call_inner tx))) g 0.
+Definition inner_fees (sure : bool) (g : list txn) : N :=
+  fold_left (fun acc tx => if sure && is_clear tx then acc
+                           else fold_left (fun a e => a + fst e) (call_inner tx) acc) g 0.
+
 (* one TransactionGroup call, judged on the observations before / after only *)
 Definition group_step_ok (sink : N) (before : snap) (g : gobs) : bool :=
   let after := g_snap g in
@@ -367,9 +508,11 @@ Definition group_step_ok (sink : N) (before : snap) (g : gobs) : bool :=
     let n := N.of_nat (List.length (g_txns g)) in
     s_intra_ok after &&
     (s_payset after =? s_payset before + n) &&
-    (s_txncount after =? s_txncount before + n) &&
+    (s_txncount before + n + inner_count true (g_txns g) <=? s_txncount after) &&
+    (s_txncount after <=? s_txncount before + n + inner_count false (g_txns g)) &&
     plist_eqb (s_txids after) (s_txids before ++ map (fun tx => (t_txid tx, t_lv tx)) (g_txns g)) &&
-    (s_fees after =? (s_fees before + fees_of sink (g_txns g)) mod 2 ^ 64) &&
+    (s_fees before + fees_of sink (g_txns g) + inner_fees true (g_txns g) <=? s_fees after) &&
+    (s_fees after <=? s_fees before + fees_of sink (g_txns g) + inner_fees false (g_txns g)) &&
     leases_ok (s_leases before) (s_leases after) (g_txns g) &&
     (s_txbytes before <? s_txbytes after)
   else snap_eqb after before && (s_txbytes after =? s_txbytes before).
@@ -402,7 +545,7 @@ Fixpoint dirty_rejects (E : env) (ev : evalst) (gs : list gobs) : N :=
   end.
 
 Definition nontrivial_c19 (k : blockcase) : bool :=
-  let b := mkBase (k_base k) (k_basetx k) (k_counter k) (k_bassets k) in
+  let b := base_of k in
   match start_block (env_of k true true) b (k_prevlvl k) (k_ru k) with
   | Err _ => false
   | Ok ev0 => 0 <? dirty_rejects (env_of k true true) ev0 (k_groups k)
@@ -412,16 +555,11 @@ Definition nontrivial_c19 (k : blockcase) : bool :=
 (* after every accepted group: every account whose record changed, other than the fee sink,
    the rewards pool and the state proof sender, is all-zero or holds (with pending rewards)
    at least its requirement *)
-Fixpoint changed_ok (P : params) (lvl sink pool sps : N) (before after : table) : bool :=
-  match before, after with
-  | [], [] => true
-  | (a, x) :: r, (a', x') :: r' =>
-    (a =? a') &&
-    (acct_eqb x x' || (a =? sink) || (a =? pool) || (a =? sps) || acct_is_zero x' ||
-     (spec_min_balance P x' <=? bwp P lvl x')) &&
-    changed_ok P lvl sink pool sps r r'
-  | _, _ => false
-  end.
+Definition changed_ok (P : params) (lvl sink pool sps : N) (before after : table) : bool :=
+  forallb (fun e =>
+    let x := match afind (fst e) before with Some y => y | None => acct0 end in
+    acct_eqb x (snd e) || (fst e =? sink) || (fst e =? pool) || (fst e =? sps) || acct_is_zero (snd e) ||
+    (spec_min_balance P (snd e) <=? bwp P lvl (snd e))) after.
 
 Fixpoint minbal_groups_ok (k : blockcase) (before : table) (gs : list gobs) : bool :=
   match gs with
@@ -438,9 +576,26 @@ Definition nontrivial_c21 (k : blockcase) : bool :=
   existsb (fun g => (g_code g =? E_MINBAL) || (g_code g =? 0)) (k_groups k).
 
 (* ------------------------------------------------------------------ entry points *)
+(* which components of two snapshots differ (diagnostics only) *)
+Definition snap_diff (a b : snap) : term :=
+  TL [tb (table_eqb (s_table a) (s_table b)); tb (nlist_eqb (s_mods a) (s_mods b));
+      tb (plist_eqb (s_txids a) (s_txids b)); tb (llist_eqb (s_leases a) (s_leases b));
+      tb (s_txncount a =? s_txncount b); tb (s_fees a =? s_fees b); tb (s_payset a =? s_payset b);
+      tb (aview_eqb (s_aview a) (s_aview b)); tb (plist_eqb (s_creators a) (s_creators b));
+      tb (rows_eqb (s_appobs a) (s_appobs b));
+      TL (map (fun r => TL (map tn r)) (s_appobs a));
+      TL (map (fun e => let x := snd e in
+                        TL [tn (fst e); tn (a_algos x); tn (a_rbase x); tn (a_rewarded x); tn (a_auth x); tb (a_elig x);
+                            tn (a_schema_u x); tn (a_schema_b x); tn (a_extrapages x); tn (a_appparams x); tn (a_applocals x);
+                            tn (a_assetparams x); tn (a_assets x); tn (a_boxes x); tn (a_boxbytes x); tn (a_lastprop x); tn (a_lasthb x);
+                            tn (a_votepk x); tn (a_selpk x); tn (a_sppk x); tn (a_votefirst x); tn (a_votelast x); tn (a_votekd x)])
+                  (filter (fun e => negb (existsb (fun e' => (fst e =? fst e') && acct_eqb (snd e) (snd e')) (s_table b))) (s_table a)));
+      TL (map tn (s_mods a)); tn (s_txncount a); tn (s_fees a)].
+
 Definition model_obs (k : blockcase) : term :=
-  (* on disagreement: the model's view after StartEvaluator and the per-group codes *)
-  let b := mkBase (k_base k) (k_basetx k) (k_counter k) (k_bassets k) in
+  (* on disagreement: the per-group codes of the model and, for the first group whose
+     snapshot differs, which components differ plus the model's version of some of them *)
+  let b := base_of k in
   match start_block (env_of k true true) b (k_prevlvl k) (k_ru k) with
   | Err e => TL [TS "start_err"; tn e]
   | Ok ev0 =>
@@ -450,7 +605,16 @@ Definition model_obs (k : blockcase) : term :=
         | g :: r => let '(ev1, res) := transaction_group (env_of k true true) ev (g_txns g) (g_lsigfee g) in
                     tn (match res with Ok _ => 0 | Err e => e end) :: go ev1 r
         end in
-    TL [TS "codes"; TL (go ev0 (k_groups k))]
+    let fix first_bad (n : N) (ev : evalst) (gs : list gobs) : term :=
+        match gs with
+        | [] => TS "none"
+        | g :: r => let '(ev1, res) := transaction_group (env_of k true true) ev (g_txns g) (g_lsigfee g) in
+                    if snap_eqb (snap_of (ids_of k) ev1) (g_snap g) then first_bad (n + 1) ev1 r
+                    else TL [tn n; snap_diff (snap_of (ids_of k) ev1) (g_snap g)]
+        end in
+    TL [TS "codes"; TL (go ev0 (k_groups k));
+        (if snap_eqb (snap_of (ids_of k) ev0) (k_start k) then TS "start_ok" else TL [TS "start"; snap_diff (snap_of (ids_of k) ev0) (k_start k)]);
+        first_bad 0 ev0 (k_groups k)]
   end.
 
 (* the reward units handed to StartEvaluator are those of the enumerated ledger *)
